@@ -25,6 +25,10 @@ if os.path.isdir(DEPS) and DEPS not in sys.path:
     sys.path.append(DEPS)
 
 NPROC = int(os.environ.get('VERIF_NPROC', '16'))
+try:
+    SEED = int(os.environ.get('VERIF_SEED', '1'))
+except ValueError:
+    SEED = 1
 # sensitivity runs against scratch copies redirect their outputs so that committed evidence is never overwritten
 OUT = os.path.abspath(os.environ.get('VERIF_OUT_DIR') or VERIF)
 
@@ -34,11 +38,14 @@ OUT = os.path.abspath(os.environ.get('VERIF_OUT_DIR') or VERIF)
 
 class Fail:
     """A failed oracle clause. `signature` names the clause and input class (root-cause bucket)."""
-    __slots__ = ('signature', 'detail')
+    __slots__ = ('signature', 'detail', 'replay')
 
-    def __init__(self, signature, detail=''):
+    def __init__(self, signature, detail='', replay=None):
+        """replay = (subcheck name, case): the reproducible unit when it is not the case itself (a fuzzing campaign
+        reports the failing input it found, which replays through a plain sub-check)"""
         self.signature = signature
         self.detail = str(detail)[:2000]
+        self.replay = replay
 
     def __repr__(self):
         return f'Fail({self.signature!r}, {self.detail[:200]!r})'
@@ -195,6 +202,16 @@ class Stats:
         }
 
 
+_CUR = {'st': None}
+
+
+def note(label, n=1):
+    """lets a check add to the class histogram of the running shard (e.g. executions done by a fuzzing campaign)"""
+    st = _CUR['st']
+    if st is not None:
+        st.classes[label] = st.classes.get(label, 0) + n
+
+
 def _on_vtalrm(signum, frame):
     raise CaseTimeout()
 
@@ -273,7 +290,11 @@ def _shard_worker(args):
 def _handle(sub, case, st, known):
     """returns Fail if an unknown failure happened, else None"""
     st.record(sub, case)
-    res, cpu = run_check_guarded(sub, case)
+    _CUR['st'] = st
+    try:
+        res, cpu = run_check_guarded(sub, case)
+    finally:
+        _CUR['st'] = None
     if cpu > st.max_case_cpu:
         st.max_case_cpu = cpu
     if res is None:
@@ -290,8 +311,15 @@ def _run_enum(sub, shard, nshards, tier, st, known):
             continue
         res = _handle(sub, case, st, known)
         if res is not None:
-            st.failures.append({'signature': res.signature, 'detail': res.detail, 'case': json.loads(canon(case))})
+            st.failures.append(_failure(res, case))
             return
+
+
+def _failure(res, case):
+    f = {'signature': res.signature, 'detail': res.detail, 'case': json.loads(canon(case))}
+    if res.replay is not None:
+        f['sub_override'], f['case'] = res.replay[0], json.loads(canon(res.replay[1]))
+    return f
 
 
 def _run_hyp(sub, shard, nshards, tier, seed, st, known, shrink_s):
@@ -334,7 +362,7 @@ def _run_hyp(sub, shard, nshards, tier, seed, st, known, shrink_s):
             raise
     if state['best'] is not None:
         res, case = state['best']
-        st.failures.append({'signature': res.signature, 'detail': res.detail, 'case': case})
+        st.failures.append(_failure(res, case))
 
 
 def _stable_hash(s):
@@ -432,7 +460,7 @@ def run_property(prop_id, tier, seed, only=None):
         meta[r['sub']]['wall_s'] = round(max(meta[r['sub']]['wall_s'], r['wall']), 2)
         for f in r['failures']:
             f = dict(f)
-            f['sub'] = r['sub']
+            f['sub'] = f.pop('sub_override', None) or r['sub']
             failures.append(f)
         if r['status'] == 'timeout':
             problems.append(f'{r["sub"]} shard {r["shard"]}: a case exceeded the CPU ceiling (inconclusive)')
